@@ -10,7 +10,7 @@ use serde_json::{json, Value};
 
 pub const LEVEL: &str = "exploration";
 pub const EXHAUSTIVE: bool = false;
-pub const RULE: &str = "(i) generated in-contract histories in both methods (all options, 3 layouts) with every candidate of every returned suggestion read out; ANSI on: a twin context with the English option flipped receives the same events; (ii) the same histories with ANSI off for the identity clause; (iii) data passes: dictionary words typed through Probhat with suggestions and ANSI on (quick: every 9th word offset by seed, thorough: ALL words) and bundled auto-correct keys x suffix keys typed in phonetic mode (quick: 4 suffixes per key, thorough: 60 per key). Oracle, ANSI on: pre-edit(i) == poriborton::unicode_to_bijoy(candidate i) and contains no code point of U+0980..U+09FF; no candidate is an emoji of the tables or contains a code point of the tables' emoji inventory; the raw typed text is a candidate only if it is the transliteration / composed text itself; the list is identical with English on and off. ANSI off: pre-edit(i) == candidate i. Non-trivial: an ANSI candidate with a conjunct, a left-standing sign or a reph, or an emoticon / emoji-name text under ANSI with English on; distinct by (options, candidate).";
+pub const RULE: &str = "(i) generated in-contract histories in both methods (all options, 3 layouts) with every candidate of every returned suggestion read out; ANSI on: a twin context with the English option flipped receives the same events; (ii) the same histories with ANSI off for the identity clause; (iii) data passes: dictionary words typed through Probhat with suggestions and ANSI on (quick: every 9th word offset by seed, thorough: ALL words) and bundled auto-correct keys x suffix keys typed in phonetic mode (quick: 4 suffixes per key, thorough: 60 per key). Oracle, ANSI on: pre-edit(i) == poriborton::unicode_to_bijoy(candidate i) and contains no code point of U+0980..U+09FF; no candidate is an emoji of the tables or contains a code point of the tables' emoji inventory; the raw typed text is a candidate only if it is the transliteration / composed text itself; the list is identical with English on and off. ANSI off: pre-edit(i) == candidate i. Non-trivial: an ANSI candidate with a conjunct, a left-standing sign or a reph, or an emoticon / emoji-name text under ANSI with English on; distinct by (options, candidate). Plus the ANSI switch made in one update-engine call together with each of 8 other options (8 texts x English x 3 endings x both directions).";
 pub const ASSUMPTIONS: &[&str] = &[
     "poriborton::bijoy2000::unicode_to_bijoy is the definition of the Bijoy-2000 encoding",
     "emoji inventory = non-ASCII, non-Bengali code points of the emojicon tables, joiners excluded",
@@ -342,13 +342,31 @@ fn learned_then_ansi(run: &Run) {
 }
 
 fn ansi_switch_case(run: &Run, phonetic: bool, w: &str, english: bool, end: u8, to_ansi: bool, st: &mut Stats) -> Result<(), Failure> {
+    ansi_switch_case_with(run, phonetic, w, english, end, to_ansi, None, st)
+}
+
+/// `together`: another option that changes in the SAME update-engine call as ANSI (0 English, 3 auto vowel, 4 auto
+/// chandrabindu, 5 traditional joining, 6 old reph, 7 number pad, 8 old vowel-sign order, 10 smart quotes).
+#[allow(clippy::too_many_arguments)]
+fn ansi_switch_case_with(run: &Run, phonetic: bool, w: &str, english: bool, end: u8, to_ansi: bool, together: Option<u8>, st: &mut Stats) -> Result<(), Failure> {
     let sb = Sandbox::new();
     let mut off = Opts::parse(if phonetic { "sq" } else { "Pfq" });
     off.english = english;
     let mut on = off;
     on.ansi = true;
-    let (first, second) = if to_ansi { (off, on) } else { (on, off) };
-    let case = || json!({"ansi_switch": {"text": w, "phonetic": phonetic, "english": english, "ending": end, "to_ansi": to_ansi}});
+    let (first, mut second) = if to_ansi { (off, on) } else { (on, off) };
+    match together {
+        Some(0) => second.english = !second.english,
+        Some(3) => second.vowel = !second.vowel,
+        Some(4) => second.chandra = !second.chandra,
+        Some(5) => second.kar = !second.kar,
+        Some(6) => second.reph = !second.reph,
+        Some(7) => second.numpad = !second.numpad,
+        Some(8) => second.karorder = !second.karorder,
+        Some(10) => second.smart = !second.smart,
+        _ => {}
+    }
+    let case = || json!({"ansi_switch": {"text": w, "phonetic": phonetic, "english": english, "ending": end, "to_ansi": to_ansi, "together": together}});
     let pf = |p: crate::driver::PanicInfo| Failure::new(panic_kind(&p), p.to_string(), case());
     let mut ctx = Ctx::new(first, &sb).map_err(pf)?;
     let r0 = ctx.type_frontend(w).map_err(pf)?;
@@ -390,6 +408,32 @@ fn ansi_switch_case(run: &Run, phonetic: bool, w: &str, english: bool, end: u8, 
 /// one of five ways (finish, commit, ctrl-backspace, plain backspaces down to nothing, or left as it is and erased),
 /// update-engine switches ANSI on (idle), and the SAME text is typed again - every list is judged, and the other
 /// direction (ANSI on -> off) must give pre-edit text equal to the candidates.  Both methods.
+/// The ANSI switch made in one update-engine call TOGETHER with one other option (a settings dialog applies all changes
+/// at once): the text typed after the call is judged under the new settings.
+fn ansi_switch_together_with_another_option(run: &Run) {
+    let mut items: Vec<(bool, &str, u8)> = vec![];
+    for t in [0u8, 3, 4, 5, 6, 7, 8, 10] {
+        for w in ["help", "cool", ":)", "\"k\"", "ami"] {
+            items.push((true, w, t));
+        }
+        for w in ["vmi", "\"k\"", ";)"] {
+            items.push((false, w, t));
+        }
+    }
+    run.exhaustive("ansi-switch-together-with-another-option", &items, |_| (), |&(phonetic, w, t), st, _| {
+        for english in [false, true] {
+            for end in [0u8, 1, 4] {
+                for to_ansi in [true, false] {
+                    ansi_switch_case_with(run, phonetic, w, english, end, to_ansi, Some(t), st)?;
+                    st.count("ansi-switch-checks", 1);
+                }
+            }
+        }
+        st.label("ansi-switched-together-with-another-option");
+        Ok(())
+    });
+}
+
 fn same_text_across_the_ansi_switch(run: &Run) {
     let p = pools();
     let mut texts: Vec<(bool, String)> = vec![];
@@ -422,6 +466,7 @@ fn same_text_across_the_ansi_switch(run: &Run) {
 
 pub fn run(run: &Run) {
     same_text_across_the_ansi_switch(run);
+    ansi_switch_together_with_another_option(run);
     learned_then_ansi(run);
     dictionary_pass(run);
     suffix_pass(run);
@@ -473,7 +518,7 @@ pub fn run(run: &Run) {
 
 pub fn replay(run: &Run, case: &Value) -> Result<(), Failure> {
     if let Some(a) = case.get("ansi_switch") {
-        return ansi_switch_case(run, a["phonetic"].as_bool().unwrap_or(true), a["text"].as_str().unwrap_or_default(), a["english"].as_bool().unwrap_or(false), a["ending"].as_u64().unwrap_or(0) as u8, a["to_ansi"].as_bool().unwrap_or(true), &mut Stats::new());
+        return ansi_switch_case_with(run, a["phonetic"].as_bool().unwrap_or(true), a["text"].as_str().unwrap_or_default(), a["english"].as_bool().unwrap_or(false), a["ending"].as_u64().unwrap_or(0) as u8, a["to_ansi"].as_bool().unwrap_or(true), a["together"].as_u64().map(|t| t as u8), &mut Stats::new());
     }
     let opts = Opts::parse(case["opts"].as_str().unwrap_or_default());
     let mut st = Stats::new();
